@@ -80,13 +80,28 @@ let sem_crossing_of_sexp = function
     { Sem.c_factors = list_of_sexp nat_of_sexp fs; Sem.c_first = nat_of_sexp first; Sem.c_chunk = nat_of_sexp chunk;
       Sem.c_mult = list_of_sexp (function L [c; m] -> (list_of_sexp nat_of_sexp c, nat_of_sexp m) | _ -> failwith "mult") mult }
   | _ -> failwith "crossing"
-(* constraints are only counted: the Nest normal form of Front/NestSem.v is for constraint-free blocks *)
+(* run-length / count constraints are parsed; every other kind becomes a KExclude placeholder, which the
+   guard nestable_b of Front/NestSem.v rejects *)
+let sem_constraint_of_sexp = function
+  | L [L [A tag; k]; f; l; ws] when tag = "atmost" || tag = "atleast" || tag = "exactlyrow" || tag = "exactlyk" ->
+    let kk = nat_of_sexp k in
+    { Sem.k_kind = (match tag with "atmost" -> Sem.KAtMost kk | "atleast" -> Sem.KAtLeast kk
+                               | "exactlyrow" -> Sem.KExactlyInARow kk | _ -> Sem.KExactlyK kk);
+      Sem.k_factor = nat_of_sexp f; Sem.k_level = nat_of_sexp l;
+      Sem.k_windows = list_of_sexp (function L [a; b] -> (nat_of_sexp a, nat_of_sexp b) | _ -> failwith "win") ws }
+  | _ -> { Sem.k_kind = Sem.KExclude; Sem.k_factor = O; Sem.k_level = O; Sem.k_windows = [] }
 let simple_sem_of_sexp = function
-  | L [t; fs; cs; L ks] ->
-    let dummy = { Sem.k_kind = Sem.KExclude; Sem.k_factor = O; Sem.k_level = O; Sem.k_windows = [] } in
+  | L [t; fs; cs; ks] ->
     { Sem.s_trials = nat_of_sexp t; Sem.s_factors = list_of_sexp sem_factor_of_sexp fs;
-      Sem.s_crossings = list_of_sexp sem_crossing_of_sexp cs; Sem.s_constraints = Stdlib.List.map (fun _ -> dummy) ks }
+      Sem.s_crossings = list_of_sexp sem_crossing_of_sexp cs; Sem.s_constraints = list_of_sexp sem_constraint_of_sexp ks }
   | _ -> failwith "sem"
+let show_sem_constraint c =
+  let kind = match c.Sem.k_kind with
+    | Sem.KAtMost k -> "(atmost " ^ show_nat k ^ ")" | Sem.KAtLeast k -> "(atleast " ^ show_nat k ^ ")"
+    | Sem.KExactlyInARow k -> "(exactlyrow " ^ show_nat k ^ ")" | Sem.KExactlyK k -> "(exactlyk " ^ show_nat k ^ ")"
+    | _ -> "(other)" in
+  "(" ^ kind ^ " " ^ show_nat c.Sem.k_factor ^ " " ^ show_nat c.Sem.k_level ^ " "
+  ^ show_list (fun (a, b) -> "(" ^ show_nat a ^ " " ^ show_nat b ^ ")") c.Sem.k_windows ^ ")"
 let show_sem_factor f =
   "(" ^ show_nat f.Sem.f_nlevels ^ " " ^ show_nat f.Sem.f_sustain ^ " " ^ (match f.Sem.f_derived with None -> "none" | Some _ -> "derived") ^ ")"
 let show_sem_crossing c =
@@ -94,7 +109,7 @@ let show_sem_crossing c =
   ^ show_list (fun (cb, m) -> "(" ^ show_natlist cb ^ " " ^ show_nat m ^ ")") c.Sem.c_mult ^ ")"
 let show_sem s =
   "(" ^ show_nat s.Sem.s_trials ^ " " ^ show_list show_sem_factor s.Sem.s_factors ^ " " ^ show_list show_sem_crossing s.Sem.s_crossings
-  ^ " " ^ show_nat (nat_of_int (Stdlib.List.length s.Sem.s_constraints)) ^ ")"
+  ^ " " ^ show_list show_sem_constraint s.Sem.s_constraints ^ ")"
 let show_wres = function
   | Trials.WOk ws -> show_zlist ws | Trials.WErrEqual -> "ErrEqual" | Trials.WErrDiv -> "ErrDiv" | Trials.WErrIndex -> "ErrIndex"
 let () =
